@@ -67,7 +67,7 @@ def gen_max_color(rng, i=None):
     return {
         "glyphs": glyphs,
         # font metrics by case index: default (advance 1275), narrower fixed advances, proportional
-        "overrides": dict([{}, dict(upem=1000, ascender=800, descender=-200, width=1000), dict(upem=2048, ascender=1900, descender=-500, width=0), dict(width=600)][i % 4], color_format=fmt, output_file="in.ttf", clip_to_viewbox=not overflow, keep_glyph_names=rng.random() < 0.5, _layout=len(glyphs) >= 3 and i % 8 in (0, 2, 5, 6)),
+        "overrides": dict([{}, dict(upem=1000, ascender=800, descender=-200, width=1000), dict(upem=2048, ascender=1900, descender=-500, width=0), dict(width=600)][i % 4], color_format=fmt, output_file="in.ttf", clip_to_viewbox=not overflow, keep_glyph_names=rng.random() < 0.5, _layout=len(glyphs) >= 3 and i % 8 in (0, 2, 5, 6), _hhea=[None, (150, -60), (0, -40), None, (210, 0)][i % 5]),
         "bitmaps": i % 8 in (1, 4, 5),
         "keep_names": rng.random() < 0.5,
     }
@@ -78,8 +78,20 @@ def run_maximum_color(glyphs, overrides, bitmaps, keep_names):
 
     overrides = dict(overrides)
     layout = overrides.pop("_layout", False)
+    hhea = overrides.pop("_hhea", None)
     cfg = e2e.default_config(**overrides)
     ufo, font_in, inputs, data = e2e.build(glyphs, cfg)
+    if hhea:
+        # the common real-world layout: hhea / win metrics larger than the typo metrics (the
+        # em box of the colour glyphs is the typo one)
+        font_in["hhea"].ascent += hhea[0]
+        font_in["hhea"].descent += hhea[1]
+        font_in["OS/2"].usWinAscent += hhea[0]
+        font_in["OS/2"].usWinDescent += -hhea[1]
+        buf = io.BytesIO()
+        font_in.save(buf)
+        data = buf.getvalue()
+        font_in = ttLib.TTFont(io.BytesIO(data), lazy=False)
     if layout:
         # kerning and mark attachment between the colour glyphs themselves: the last glyph is
         # the mark, the others are bases with pairwise different anchors
